@@ -112,7 +112,7 @@ class Record:
 
 
 class World:
-    def __init__(self, case, record_kernel=True):
+    def __init__(self, case, record_kernel=True, seam=None):
         self.case = case
         self.scenario = case["scenario"]
         self.config = case.get("config") or {}
@@ -128,9 +128,10 @@ class World:
         self.serial = 0
         self.junk = []
         self.conds = {}        # shared condition objects by name
-        self.seam = Seam(plan=self.plan, inject=self.inject, record=record_kernel,
-                         same_time_cap=self.config.get("same_time_cap"),
-                         total_cap=self.config.get("total_cap"))
+        self.seam = seam if seam is not None else Seam(
+            plan=self.plan, inject=self.inject, record=record_kernel,
+            same_time_cap=self.config.get("same_time_cap"),
+            total_cap=self.config.get("total_cap"))
         self.ops = {name[3:]: getattr(self, name) for name in dir(self)
                     if name.startswith("op_")}
         self.raised = {}       # serial -> (class name, actor)
@@ -767,6 +768,36 @@ class World:
         if task is not None:
             self.log(a, "status", op["task"], task.status.name)
 
+    # -- nested simulation
+    async def op_nested_run(self, a, op):
+        """Run a complete inner simulation from inside an activity."""
+        outer = self
+        start = op.get("start", 0)
+        self.log(a, "nested+", start)
+
+        async def inner(tag, delays, fail):
+            outer.log(a + ":" + tag, "inner.start")
+            for d in delays:
+                await (time + d)
+                outer.log(a + ":" + tag, "inner.step", d)
+            if fail:
+                serial = outer.next_serial()
+                outer.log(a + ":" + tag, "raise", "ProgError", serial)
+                raise ProgError(serial, "prog")
+            outer.log(a + ":" + tag, "inner.end")
+
+        coros = [inner("i%d" % i, spec.get("delays", ()), spec.get("fail", False))
+                 for i, spec in enumerate(op.get("roots", ()))]
+        kwargs = {"start": start}
+        if op.get("till") is not None:
+            kwargs["till"] = op["till"]
+        try:
+            usim.run(*coros, **kwargs)
+        except ProgError as err:
+            self.log(a, "nested!", self.meta(err))
+        else:
+            self.log(a, "nested-", start)
+
     # -- tickers
     async def op_ticker(self, a, op):
         kind = op["kind"]
@@ -890,7 +921,16 @@ def execute(case, record_kernel=True, setup=None):
                 kwargs = {"start": start}
                 if scenario.get("till") is not None:
                     kwargs["till"] = World.num(scenario["till"])
-                usim.run(world.root(), **kwargs)
+                if scenario.get("roots") == "direct":
+                    world.make_resources()
+                    roots = []
+                    for spec in scenario.get("actors", ()):
+                        coro = world.actor(spec)
+                        world.seam.register(coro, spec["name"])
+                        roots.append(coro)
+                    usim.run(*roots, **kwargs)
+                else:
+                    usim.run(world.root(), **kwargs)
                 outcome = ("ok",)
                 seam.finish()
             except HarnessAbort as err:
